@@ -54,14 +54,17 @@ Proof.
     rewrite (IH _ _ _ _ _ H). exact T1.
 Qed.
 
-Lemma quiesce_pres fuel : q_pres (quiesce zt osort fuel).
+Lemma quiesce_pres fuel : q_pres (quiesce zt osort k fuel).
 Proof.
   induction fuel as [|f IH]; intros b a be s v s' H; cbn [quiesce] in H; [discriminate|].
-  destruct (be <=? get_evaluation b); [inversion H; reflexivity|].
-  destruct (do_sort osort (generate_moves zt b CapturesOnly) (node_searched s)) as [moves s1] eqn:DS.
-  assert (T1 : table s1 = table s).
+  destruct (out_of_time k s) as [e s0] eqn:OT.
+  assert (T0 : table s0 = table s) by (change s0 with (snd (e, s0)); rewrite <- OT; reflexivity).
+  destruct e; [inversion H; subst; exact T0|].
+  destruct (be <=? get_evaluation b); [inversion H; subst; exact T0|].
+  destruct (do_sort osort (generate_moves zt b CapturesOnly) (node_searched s0)) as [moves s1] eqn:DS.
+  assert (T1 : table s1 = table s0).
   { change s1 with (snd (moves, s1)). rewrite <- DS. reflexivity. }
-  rewrite (q_loop_pres _ IH _ _ _ _ _ _ H). exact T1.
+  rewrite (q_loop_pres _ IH _ _ _ _ _ _ H). congruence.
 Qed.
 
 (* ---- the main search *)
@@ -181,7 +184,7 @@ Proof.
   set (s2 := with_maxply (node_searched s1) (Z.max (max_ply (node_searched s1)) ply)) in *.
   assert (T2 : table s2 = table s) by (unfold s2; cbn [table with_maxply node_searched with_nodes]; exact T1).
   destruct (is_threefold_repetition (table s2) b); [inversion H; subst; rewrite T2; apply dt_equiv_refl|].
-  eapply (ab_body_restores (alpha_beta zt osort k f) (quiesce zt osort f) IH (quiesce_pres f) b (table s)); [exact NN| |exact H].
+  eapply (ab_body_restores (alpha_beta zt osort k f) (quiesce zt osort k f) IH (quiesce_pres f) b (table s)); [exact NN| |exact H].
   unfold Inv. cbn [table with_table]. rewrite T2. apply dt_equiv_refl.
 Qed.
 
